@@ -85,6 +85,19 @@ theorem C10_code_table (bs : Nat) (es : List E) (hs : SortedE vlt es) (k : Bytes
   rw [← TableTie.tableLookup_eq]
   exact C10_table bs es hs k r
 
+/-- the block-cutting loop of `table.Build` (translated from the Go source on every run) lays the entries out as the
+    model's `buildTable` does, for every block-size threshold: nothing is lost, reordered or duplicated, and the two
+    translated searches find the first entry `≥` the target in the blocks the translated loop produced -/
+theorem C10_code_build_and_search (bs : Nat) (es : List E) (hs : SortedE vlt es) (k : Bytes) (r : Nat) :
+    GenTable.buildBlocks esize bs es = (buildTable bs es).blocks ∧ (GenTable.buildBlocks esize bs es).flatten = es ∧
+    ((GenTable.indexLowerIdx (lastGe vlt ⟨k, r⟩) (GenTable.buildBlocks esize bs es)).bind fun i =>
+      ((GenTable.buildBlocks esize bs es)[i]?).bind fun b => (GenTable.dataLowerIdx (geKey vlt ⟨k, r⟩) b).bind (b[·]?))
+      = es.find? (geKey vlt ⟨k, r⟩) := by
+  have h : GenTable.buildBlocks esize bs es = (buildTable bs es).blocks := TableTie.buildBlocks_eq esize bs es
+  refine ⟨h, ?_, ?_⟩
+  · rw [h]; exact buildTable_entries bs es
+  · rw [h]; exact C10_code_table bs es hs k r
+
 /-- non-vacuity: the translated search on a concrete block -/
 example : GenTable.dataLowerIdx (fun (x : Nat) => decide (5 ≤ x)) [1, 3, 5, 7, 9] = some 2 ∧
     GenTable.dataLowerIdx (fun (x : Nat) => decide (10 ≤ x)) [1, 3, 5, 7, 9] = none ∧
@@ -96,4 +109,5 @@ example : GenTable.dataLowerIdx (fun (x : Nat) => decide (5 ≤ x)) [1, 3, 5, 7,
 #print axioms C10_code_lookup_newest
 #print axioms C10_code_search_fold
 #print axioms C10_code_table
+#print axioms C10_code_build_and_search
 end Props
